@@ -19,12 +19,19 @@ Proved here:
 * `bound_copy_needed_witness` – without `temp_bound := bound.Copy()` (seeded change C03-a) the analysis
                               contradicts the specification on a concrete program
 * `closure_shares_cell`, `closure_shares_cell_run` – VM: closures of one activation share one cell per variable
+* `scope_is_classify`, `resolve_at_block`, `resolve_depends_on_chain_only`, `local_shadows_outer_global` (round 3) –
+                              a nested block's names are classified from its own source facts and its chain of enclosing blocks only
+* `analyzeName_is_table`, `analyzeName_decision_pinned`, `childBlock_copies_pinned`, `analyzeName_extracted_eq_model` –
+                              regenerated tie: the decision sequence extracted from symtable.go = the table the model equals
 * `nameop_*`                – NameOp's scope → opcode-family table
 * `slots_wellformed`, `slots_in_frame`, `closure_slots_wellformed_partial`,
   `closure_slot_fallback_witness` – DEREF / LOAD_CLOSURE operands address the right cell
 -/
 import GPy.C03.ProofsSpec6
+import GPy.C03.ProofsChain
 import GPy.C03.ProofsVM
+import GPy.C03.ANTable
+import GPy.C03.Generated.AnalyzeNameFacts
 namespace GPy.C03
 
 /-! ## order independence -/
@@ -240,23 +247,6 @@ theorem analyze_spec_rejects_iff (σ : Order) (hσ : σ.Valid) (b : Body) :
   have := analyze_spec σ hσ b
   cases h : newSymTable σ b <;> cases h' : specAnalyze b <;> simp_all
 
-/-- the classification of a name in the block at `path` (child indices from the module), spec side -/
-def SForest.nth : SForest → Nat → Option ((Name → Option Cls) × SForest)
-  | .nil, _ => none
-  | .node _ _ cls kids _, 0 => some (cls, kids)
-  | .node _ _ _ _ sibs, i + 1 => sibs.nth i
-
-def clsAtAux : List Nat → (Name → Option Cls) → SForest → Name → Option Cls
-  | [], cls, _, n => cls n
-  | i :: rest, _, kids, n => match kids.nth i with
-    | some (cls', kids') => clsAtAux rest cls' kids' n
-    | none => none
-
-def clsAt (s : SForest) (path : List Nat) (n : Name) : Option Cls :=
-  match s with
-  | .node _ _ cls kids _ => clsAtAux path cls kids n
-  | .nil => none
-
 theorem agree_at (U : List Name) : ∀ (path : List Nat) (i : Nat) (kids : Forest) (skids : SForest), Agree U kids skids →
     ∀ (n : Name), n ∈ U →
     (match kids.nth i with
@@ -335,6 +325,102 @@ theorem analyze_spec_scope (σ : Order) (hσ : σ.Valid) (b : Body) (t : Forest)
           · rw [h'] at hd; cases hd
           · rw [h1] at hd; cases hd; exact h2
 
+
+/-! ## resolution depends only on the chain of enclosing scopes (round 3) -/
+
+/-- the scope the analysis records for a name in a nested block is `classify` applied to the block's own
+source facts `info` and to the chain `chain` of its enclosing blocks (`blockAt`: only the blocks ON the path
+from the module contribute), for SOME set `cfv` of names captured by blocks nested in it -/
+theorem scope_is_classify (σ : Order) (hσ : σ.Valid) (b : Body) (t : Forest) (ht : newSymTable σ b = .ok t)
+    (i : Nat) (rest : List Nat) (n : Name) (hn : n ∈ namesOf b) (d : Ste) (hd : t.steAt (i :: rest) = some d)
+    (info : SInfo) (chain : List SInfo) (hb : blockAt b (i :: rest) = some (info, chain)) :
+    info.isModule = false ∧ ∃ cfv, (d.syms.get n).map (·.scope) = (classify info chain cfv n).map Cls.toScope := by
+  have h := analyze_spec σ hσ b
+  rw [ht] at h
+  cases hs : specAnalyze b with
+  | error e => rw [hs] at h; exact h.elim
+  | ok s =>
+    have h1 := analyze_spec_scope σ hσ b t s ht hs i rest n hn d hd
+    obtain ⟨hm, cfv, hc⟩ := clsAt_classify b s hs i rest n info chain hb
+    exact ⟨hm, cfv, by rw [h1, hc]⟩
+
+/-- **resolve_at_block.**  For every program gpython accepts, every iteration order and every nested block: a name
+the block declares `global`/`nonlocal` or merely reads gets exactly the scope `resolve info chain` names, where
+`info` = the block's own source facts and `chain` = the source facts of the blocks that ENCLOSE it (innermost
+first, the module last).  `resolve`/`visible` inspect nothing else: no sibling scope, no block nested elsewhere,
+no module-level symbol flag.  (A name the block binds is Local or Cell; which of the two depends on the blocks
+nested IN it, `scope_is_classify`.) -/
+theorem resolve_at_block (σ : Order) (hσ : σ.Valid) (b : Body) (t : Forest) (ht : newSymTable σ b = .ok t)
+    (i : Nat) (rest : List Nat) (n : Name) (hn : n ∈ namesOf b) (d : Ste) (hd : t.steAt (i :: rest) = some d)
+    (info : SInfo) (chain : List SInfo) (hb : blockAt b (i :: rest) = some (info, chain))
+    (c : Cls) (hres : resolve info chain n = some c) (hc : c ≠ .local) :
+    (d.syms.get n).map (·.scope) = some c.toScope := by
+  obtain ⟨_, cfv, h⟩ := scope_is_classify σ hσ b t ht i rest n hn d hd info chain hb
+  rw [h]
+  simp only [classify, hres]
+  cases c <;> simp_all
+
+/-- **resolve_depends_on_chain_only.**  Two programs `b`, `b'` (analysed under any iteration orders), a nested
+block in each, whose own source facts and whose chains of enclosing blocks coincide (`blockAt … = (info, chain)` in
+both; the programs may differ ARBITRARILY elsewhere: sibling scopes at every level, their `global`
+declarations — which set DefGlobal on the module's symbol —, blocks nested in the siblings or in the block
+itself): every name that occurs in the block and that the block does not itself bind (a read, a `global` or a
+`nonlocal` declaration) gets the SAME scope in both analyses.  (Excluded by the hypotheses, deliberately: a name
+the block binds is Local or Cell depending on the blocks nested IN it, and a name that does not occur in the
+block has a symbol there only as a pass-through free variable of a block nested in it.) -/
+theorem resolve_depends_on_chain_only (σ σ' : Order) (hσ : σ.Valid) (hσ' : σ'.Valid) (b b' : Body) (t t' : Forest)
+    (ht : newSymTable σ b = .ok t) (ht' : newSymTable σ' b' = .ok t')
+    (i i' : Nat) (rest rest' : List Nat) (n : Name) (hn : n ∈ namesOf b) (hn' : n ∈ namesOf b')
+    (d d' : Ste) (hd : t.steAt (i :: rest) = some d) (hd' : t'.steAt (i' :: rest') = some d')
+    (info : SInfo) (chain : List SInfo)
+    (hb : blockAt b (i :: rest) = some (info, chain)) (hb' : blockAt b' (i' :: rest') = some (info, chain))
+    (hment : info.mentions n = true) (hnb : info.binds n = false) :
+    (d.syms.get n).map (·.scope) = (d'.syms.get n).map (·.scope) := by
+  cases hr : resolve info chain n with
+  | some c =>
+    have hc : c ≠ .local := by
+      intro hc; subst hc
+      unfold resolve at hr
+      rw [hnb] at hr
+      cases hg : info.globs n <;> cases hnl : info.nonlocs n <;> cases hu : info.uses n <;>
+        simp [hg, hnl, hu] at hr <;> (split at hr <;> cases hr)
+    rw [resolve_at_block σ hσ b t ht i rest n hn d hd info chain hb c hr hc,
+        resolve_at_block σ' hσ' b' t' ht' i' rest' n hn' d' hd' info chain hb' c hr hc]
+  | none =>
+    have := resolve_isSome info chain n
+    rw [hr, hment] at this
+    cases this
+
+/-- **local_shadows_outer_global.**  A block that merely reads `n`, nested directly in a function (def, lambda or
+comprehension) `g` that binds `n` as an ordinary local (assignment, parameter, `del`, nested def/class name; no
+`global n`/`nonlocal n` in `g`): the read is a FREE variable (the cell of `g`), whatever the blocks `outer` that
+enclose `g` declare — `global n` in an enclosing function, or, through `AddDef`'s DefGlobal mark on the module
+symbol, in any unrelated function of the module — and whatever else the program contains. -/
+theorem local_shadows_outer_global (σ : Order) (hσ : σ.Valid) (b : Body) (t : Forest) (ht : newSymTable σ b = .ok t)
+    (i : Nat) (rest : List Nat) (n : Name) (hn : n ∈ namesOf b) (d : Ste) (hd : t.steAt (i :: rest) = some d)
+    (info g : SInfo) (outer : List SInfo) (hb : blockAt b (i :: rest) = some (info, g :: outer))
+    (hg : g.isFun = true) (hloc : g.isLocal n = true)
+    (huse : info.uses n = true) (hnb : info.binds n = false) (hng : info.globs n = false) (hnn : info.nonlocs n = false) :
+    (d.syms.get n).map (·.scope) = some .free := by
+  obtain ⟨hm, _⟩ := scope_is_classify σ hσ b t ht i rest n hn d hd info (g :: outer) hb
+  have hmod : g.isModule = false := by
+    unfold SInfo.isFun at hg; unfold SInfo.isModule
+    cases hk : g.kind <;> simp_all
+  have hcls : g.isClass = false := by
+    unfold SInfo.isFun at hg; unfold SInfo.isClass
+    cases hk : g.kind with
+    | none => simp_all
+    | some k => cases k <;> simp_all
+  have hgl : g.globs n = false := by
+    unfold SInfo.isLocal at hloc
+    cases h : g.globs n <;> simp_all
+  have hvis : visible (g :: outer) n = true := by
+    simp only [visible, hmod, hcls, hgl, hloc, if_true, Bool.false_eq_true, if_false]
+  have hres : resolve info (g :: outer) n = some .free := by
+    simp only [resolve, hng, hnn, hnb, huse, hm, hvis, Bool.false_eq_true, if_false, if_true, Bool.not_false, Bool.and_self]
+  exact resolve_at_block σ hσ b t ht i rest n hn d hd info (g :: outer) hb .free hres (by decide)
+
+
 /-- **pass1_spec** (invariant (i)).  `Parse` over any block body, started from any table `st`: it fails
 iff a `global`/`nonlocal` statement names something the table already has as assigned or used
 (`evBad`, which for a fresh function table is `usedBeforeDecl`) or some nested block is rejected by
@@ -385,6 +471,56 @@ theorem bound_copy_needed_witness :
     okScope (newSymTable Order.id seedC03a') [0, 1] "x" = some .free ∧
     okCls (specAnalyze seedC03a') [0, 1] "x" = some .free ∧
     errOf (newSymTableNoCopy Order.id seedC03a') = some .noBindingNonlocal := by
+  set_option maxRecDepth 100000 in decide
+
+/-- non-vacuity of `local_shadows_outer_global` / the shape of seeded change C03-c: `x = 1` / `def f1(): global x` /
+`def f2(): x = 2` + `def f3(): p(x)`: an unrelated sibling declares `global x` (the module symbol becomes DefGlobal),
+`f2` binds x locally, `f3` reads it: Free (and `blockAt` yields the chain `[f2, module]`, without `f1`) -/
+def seedC03c : Body :=
+  .op (.bind "x" 1) <| .child .func "f1" [] (.op (.glob "x") .nil) <|
+  .child .func "f2" [] (.op (.bind "x" 2) <| .child .func "f3" [] (.op (.use "x") .nil) .nil) .nil
+
+example : okScope (newSymTable Order.id seedC03c) [1, 0] "x" = some .free ∧
+    okScope (newSymTable Order.id seedC03c) [1] "x" = some .cell ∧
+    ((blockAt seedC03c [1, 0]).map fun r => (r.1.uses "x", r.2.length, (r.2.headD r.1).isLocal "x")) = some (true, 2, true) := by
+  set_option maxRecDepth 100000 in decide
+
+/-! ## regenerated tie: AnalyzeName's decision sequence (extract/symfacts → Generated/AnalyzeNameFacts.lean) -/
+
+/-- **analyzeName_is_table.**  The model's `AnalyzeName` IS the interpretation of the decision table `anTree`
+(order of the tests on DefGlobal / DefNonlocal / DefBound / `bound.Contains` / `global.Contains`, and per branch the
+scope assigned, the `Add`/`Discard` on bound/local/free/global and the SyntaxError raised), for every state, name,
+flag word and `st.Nested`. -/
+theorem analyzeName_is_table (s : AN) (name : Name) (flags : Flags) (nested : Bool) :
+    AnalyzeName s name flags = anTree.run ⟨name, flags, nested⟩ s := by
+  obtain ⟨scopes, bound, loc, free, glob⟩ := s
+  cases hgn : glob.get name <;>
+  cases hg : flags.glob <;> cases hp : flags.param <;> cases hn : flags.nonloc <;> cases hb : flags.bound <;>
+    cases nested <;> (cases bound with
+      | none => simp [AnalyzeName, anTree, Prog.run, Prog.exec, Cond.eval, FlagId.test, setIsNil, setHas, setAdd, setDiscard, hg, hp, hn, hb, hgn]
+      | some b => cases hbn : b.get name <;>
+          simp [AnalyzeName, anTree, Prog.run, Prog.exec, Cond.eval, FlagId.test, setIsNil, setHas, setAdd, setDiscard, hg, hp, hn, hb, hgn, hbn])
+
+/-- **analyzeName_decision_pinned.**  The decision sequence `extract/symfacts` reads off
+`(*SymTable).AnalyzeName` of the working tree (go/ast; regenerated on every run) is, statement for statement,
+the table the model is proved equal to.  A reordering of the tests, a dropped or added `Discard`/`Add`, another
+scope constant, another error, or a construct the extractor does not know (`Act.unknown`, e.g. a `switch`)
+breaks THIS obligation, whether or not a generated program distinguishes the two. -/
+theorem analyzeName_decision_pinned : Generated.analyzeNameFacts = anTree := by decide
+
+/-- **childBlock_copies_pinned.**  `AnalyzeChildBlock` copies `bound`, `free` and `global` (in this order) and hands
+the three copies to `AnalyzeBlock` — the steps `analyzeForest` models at sites 11–13 (`cpBound = true`). -/
+theorem childBlock_copies_pinned : Generated.childBlockCopies = modelCopies := by decide
+
+/-- the code's AnalyzeName, as extracted, computes what the model computes (corollary of the two) -/
+theorem analyzeName_extracted_eq_model (s : AN) (name : Name) (flags : Flags) (nested : Bool) :
+    Generated.analyzeNameFacts.run ⟨name, flags, nested⟩ s = AnalyzeName s name flags := by
+  rw [analyzeName_decision_pinned, analyzeName_is_table]
+
+/-- the two halves of seeded change C03-c at table level: with the `global` test moved before the `bound` test AND
+the `Discard` on `global` dropped from the DefBound branch, a name in both sets resolves GlobalImplicit, not Free -/
+example : (anTree.run ⟨"x", DefUse, true⟩ { bound := some (NSet.empty.add "x"), free := NSet.empty, glob := NSet.empty.add "x" }).toOption.map
+      (·.scopes "x") = some .free := by
   set_option maxRecDepth 100000 in decide
 
 /-! ## closures share one cell per variable (VM model) -/
